@@ -34,9 +34,12 @@ Variable exec_out : list byte -> exec_answer.
 Variable dir_list : list byte -> dir_answer.
 Hypothesis exec_ok : forall c o, exec_out c = ExecOut o -> Forall is_byte o /\ small o.
 Hypothesis dir_ok : forall d ns, dir_list d = DirList ns -> Forall (Forall nz_byte) ns.
+Variable extra : list (list byte * Z).
+Variable ufn : Z -> option (list byte) -> option (list byte).
+Hypothesis ufn_ok : forall code a v, (forall o, a = Some o -> arg_ok o) -> ufn code a = Some v -> val_ok v.
 
-Notation sx := (sx genv progname progver exec_out dir_list).
-Notation lloop := (lloop genv progname progver exec_out dir_list).
+Notation sx := (sx genv progname progver exec_out dir_list extra ufn).
+Notation lloop := (lloop genv progname progver exec_out dir_list extra ufn).
 
 (* ---------- sx does not run out of its counter ---------- *)
 Lemma emit_fuel frag r : emit frag r = SFuel -> r = SFuel.
@@ -55,7 +58,7 @@ Proof.
   { destruct t as [|d t']; [discriminate|]. cbn [length] in Hn.
     destruct (negb q1 || (d =? 39)); intros E; apply emit_fuel in E; revert E; apply IH; lia. }
   destruct (c =? 37).
-  { destruct (find_call builtin_table t) as [[code nlen]|].
+  { destruct (find_call (full_table extra) t) as [[code nlen]|].
     2:{ destruct t as [|d t']; [discriminate|]. cbn [length] in Hn.
         intros E; apply emit_fuel in E; revert E; apply IH; lia. }
     pose proof (after_open_len nlen t) as Hao.
@@ -65,10 +68,10 @@ Proof.
     pose proof (removelast_le a) as Hrl.
     pose proof (IH (removelast a) false false st ltac:(lia)) as Hin.
     destruct (sx n (removelast a) false false st) as [o st1 pk|[|e] st1 m pk|]; [| |discriminate|congruence].
-    - destruct (s_builtin progname progver exec_out dir_list code (Some o) st1) as [[|v|e] st2]; [| |discriminate].
+    - destruct (s_builtin progname progver exec_out dir_list ufn code (Some o) st1) as [[|v|e] st2]; [| |discriminate].
       + intros E. apply with_peak_fuel in E. revert E. apply IH. lia.
       + intros E. apply with_peak_fuel, emit_fuel in E. revert E. apply IH. lia.
-    - destruct (s_builtin progname progver exec_out dir_list code None st1) as [[|v|e] st2]; [| |discriminate].
+    - destruct (s_builtin progname progver exec_out dir_list ufn code None st1) as [[|v|e] st2]; [| |discriminate].
       + intros E. apply with_peak_fuel in E. revert E. apply IH. lia.
       + intros E. apply with_peak_fuel, emit_fuel in E. revert E. apply IH. lia. }
   destruct (c =? 96). { destruct q1; [apply Hlit|discriminate]. }
@@ -156,7 +159,7 @@ Proof.
       + apply sx_rel_emit. apply IH; auto; [lia|]. apply pre_ok_snoc; auto. now apply esc_nz.
       + apply sx_rel_emit. apply IH; auto; [lia|]. now apply pre_ok_snoc2. }
   destruct (c =? 37).
-  { destruct (find_call builtin_table t) as [[code nlen]|] eqn:Efc.
+  { destruct (find_call (full_table extra) t) as [[code nlen]|] eqn:Efc.
     2:{ destruct t as [|d t'].
         - cbn. intros H1 _. destruct n; [lia|]. reflexivity.
         - pose proof (Forall_nz_cons _ _ Ht) as [Hd Ht']. cbn [length] in Hn.
@@ -170,14 +173,14 @@ Proof.
     pose proof (removelast_le a) as Hrl.
     assert (Hra : Forall nz_byte (removelast a)) by now apply removelast_nz.
     pose proof (IH (removelast a) [] false false st ltac:(lia) Hra pre_ok_nil Hst) as Hin.
-    pose proof (lloop_ok genv progname progver genv_nz progname_nz progver_nz exec_out dir_list exec_ok dir_ok n (removelast a) [] false false st
+    pose proof (lloop_ok genv progname progver genv_nz progname_nz progver_nz exec_out dir_list exec_ok dir_ok extra ufn ufn_ok n (removelast a) [] false false st
                          ltac:(lia) Hra pre_ok_nil Hst) as Hok.
     destruct (sx n (removelast a) false false st) as [o st1 pk|[|e] st1 m pk|]; [| | |exact I].
     - (* the argument text expands to o *)
       cbn [sx_rel app length Nat.add] in Hin.
       (* everything below is under the assumption that o and its nested texts fit *)
       assert (Hcase : Z.of_nat (length o) < maxj -> Z.of_nat pk < maxj ->
-                      sx_rel (let '(out, st2) := s_builtin progname progver exec_out dir_list code (Some o) st1 in
+                      sx_rel (let '(out, st2) := s_builtin progname progver exec_out dir_list ufn code (Some o) st1 in
                               match out with
                               | BExt e => SStop (StExt e) st2 0 (Nat.max (length o) pk)
                               | BStr v => with_peak (Nat.max (length o) pk) (emit v (sx n rest q1 q2 st2))
@@ -192,7 +195,7 @@ Proof.
                                                       | LLNull st1' => (None, st1')
                                                       | _ => (None, st)
                                                       end in
-                                let '(out, st2) := s_builtin progname progver exec_out dir_list code param st1' in
+                                let '(out, st2) := s_builtin progname progver exec_out dir_list ufn code param st1' in
                                 match out with
                                 | BExt e => LLExt e
                                 | BStr (o0 :: ot) => lloop n rest (lplace pre (o0 :: ot)) q1 q2 st2
@@ -206,10 +209,10 @@ Proof.
         { unfold lfinish. pose proof maxj_eq.
           destruct (Z.ltb_spec (Z.of_nat (length o)) config_buff); [|lia]. now rewrite cut0_nz_id. }
         rewrite Ef.
-        pose proof (s_builtin_ok progname progver progname_nz progver_nz exec_out dir_list exec_ok dir_ok code (Some o) st1 Hst1) as Hb.
-        destruct (s_builtin progname progver exec_out dir_list code (Some o) st1) as [out st2].
+        pose proof (s_builtin_ok progname progver progname_nz progver_nz exec_out dir_list exec_ok dir_ok ufn ufn_ok code (Some o) st1 Hst1) as Hb.
+        destruct (s_builtin progname progver exec_out dir_list ufn code (Some o) st1) as [out st2].
         destruct Hb as (Hst2 & Hout).
-        { intros o' E. injection E as <-. split; [exact Hoz|]. unfold small. pose proof cb_bounds. pose proof maxj_eq. lia. }
+        { intros o' E. injection E as <-. split; [exact Hoz|]. pose proof cb_bounds. pose proof maxj_eq. lia. }
         destruct out as [|[|o0 ot]|e].
         - apply sx_rel_peak. apply IH; auto; lia.
         - apply sx_rel_peak. apply sx_rel_emit. rewrite app_nil_r. apply IH; auto; lia.
@@ -223,14 +226,14 @@ Proof.
             destruct (Z.leb_spec (Z.of_nat (length (o0 :: ot))) (maxj - Z.of_nat (length pre) - 1)); [reflexivity|lia].
         - cbn. reflexivity. }
       (* fold the assumption back into the shape of sx_rel *)
-      destruct (s_builtin progname progver exec_out dir_list code (Some o) st1) as [[|v|e] st2] eqn:Eb.
+      destruct (s_builtin progname progver exec_out dir_list ufn code (Some o) st1) as [[|v|e] st2] eqn:Eb.
       + destruct (sx n rest q1 q2 st2) as [o' st' pk'|[|e'] st' m' pk'|]; cbn in *; intros; try exact I; apply Hcase; lia.
       + destruct (sx n rest q1 q2 st2) as [o' st' pk'|[|e'] st' m' pk'|]; cbn in *; intros; try exact I; apply Hcase; lia.
       + cbn in *. intros. apply Hcase; lia.
     - (* the argument text could not be expanded *)
       cbn [sx_rel app length Nat.add] in Hin.
       assert (Hcase : Z.of_nat m < maxj -> Z.of_nat pk < maxj ->
-                      sx_rel (let '(out, st2) := s_builtin progname progver exec_out dir_list code None st1 in
+                      sx_rel (let '(out, st2) := s_builtin progname progver exec_out dir_list ufn code None st1 in
                               match out with
                               | BExt e => SStop (StExt e) st2 0 (Nat.max m pk)
                               | BStr v => with_peak (Nat.max m pk) (emit v (sx n rest q1 q2 st2))
@@ -245,7 +248,7 @@ Proof.
                                                       | LLNull st1' => (None, st1')
                                                       | _ => (None, st)
                                                       end in
-                                let '(out, st2) := s_builtin progname progver exec_out dir_list code param st1' in
+                                let '(out, st2) := s_builtin progname progver exec_out dir_list ufn code param st1' in
                                 match out with
                                 | BExt e => LLExt e
                                 | BStr (o0 :: ot) => lloop n rest (lplace pre (o0 :: ot)) q1 q2 st2
@@ -253,8 +256,8 @@ Proof.
                                 end
                               end)).
       { intros Hm Hpk. specialize (Hin Hm Hpk). rewrite Hin in *. cbn [llres_ok] in Hok.
-        pose proof (s_builtin_ok progname progver progname_nz progver_nz exec_out dir_list exec_ok dir_ok code None st1 Hok ltac:(discriminate)) as Hb.
-        destruct (s_builtin progname progver exec_out dir_list code None st1) as [out st2].
+        pose proof (s_builtin_ok progname progver progname_nz progver_nz exec_out dir_list exec_ok dir_ok ufn ufn_ok code None st1 Hok ltac:(discriminate)) as Hb.
+        destruct (s_builtin progname progver exec_out dir_list ufn code None st1) as [out st2].
         destruct Hb as (Hst2 & Hout).
         destruct out as [|[|o0 ot]|e].
         - apply sx_rel_peak. apply IH; auto; lia.
@@ -268,7 +271,7 @@ Proof.
           + unfold lplace. rewrite app_length in Hfit.
             destruct (Z.leb_spec (Z.of_nat (length (o0 :: ot))) (maxj - Z.of_nat (length pre) - 1)); [reflexivity|lia].
         - cbn. reflexivity. }
-      destruct (s_builtin progname progver exec_out dir_list code None st1) as [[|v|e] st2] eqn:Eb.
+      destruct (s_builtin progname progver exec_out dir_list ufn code None st1) as [[|v|e] st2] eqn:Eb.
       + destruct (sx n rest q1 q2 st2) as [o' st' pk'|[|e'] st' m' pk'|]; cbn in *; intros; try exact I; apply Hcase; lia.
       + destruct (sx n rest q1 q2 st2) as [o' st' pk'|[|e'] st' m' pk'|]; cbn in *; intros; try exact I; apply Hcase; lia.
       + cbn in *. intros. apply Hcase; lia.
